@@ -334,6 +334,28 @@ func zzProcAlive() bool {
 		}
 	}
 	appended := finalLog[len(zzFS.snapLog):]
+	if lines := splitLines(appended); len(lw) == 1 && len(lines) > 1 {
+		// one write(2) carrying several lines
+		var out []byte
+		e := lw[0]
+		switch {
+		case e.I < die:
+			out = appended
+		case e.I == die && torn:
+			k, _ := strconv.Atoi(s.Values["world.tornlines!"+strconv.Itoa(e.I)])
+			for j, ln := range lines {
+				if j < k {
+					out = append(out, ln...)
+				} else if j == k {
+					out = append(out, ln[:len(ln)/2]...)
+				}
+			}
+		case e.I == die && tornAll:
+			out = appended[:len(appended)-1]
+		}
+		os.WriteFile(zzLogPath(), append(append([]byte(nil), zzFS.snapLog...), out...), 0644)
+		return false
+	}
 	os.WriteFile(zzLogPath(), append(append([]byte(nil), zzFS.snapLog...), keep(splitLines(appended), lw)...), 0644)
 	return false
 }
